@@ -273,7 +273,7 @@ class Elab:
 
     def lhs(self, n):
         e = self.expr(n)
-        if e[0] not in ("reg", "var"):
+        if e[0] not in ("reg", "var", "imm"):   # imm: an assignable immediate (`riV = riV & ~3`)
             raise Unmodelled("assignment target")
         return e
 
@@ -283,6 +283,9 @@ class Elab:
         d = n.data
         ch = n.children
         if d == "block_item":
+            if is_tree(ch[0]) and ch[0].data == "block_item":
+                # `{ { x; } }`: a compound statement whose only item is a compound statement with one item
+                return [("block", self.drop_jump_semicolons(self.stmt(ch[0])))]
             return self.stmt(ch[0])
         if d == "block_item_list":
             return [("block", self.block(n))]
